@@ -146,6 +146,7 @@ TYPE_PAIRS = [
     (("Dict", STR, tInner), ("Dict", STR, tInnerDTO)),     # 12
     (INT, STR),                                            # 13 needs a user coercer
     (opt(LI), opt(("TupleVar", INT))),                     # 14 real coercion below Optional (falsy [] must still become ())
+    (("Dict", STR, tInner), ("Dict", STR, tInner)),        # 15 equal types: still item by item (links inside Inner, coercers)
 ]
 NTP = len(TYPE_PAIRS)
 FIELD_ORDER = "abcd"
@@ -799,7 +800,7 @@ def nested_targets(profile, D):
     out = []
     for n in D:
         ts = pair_of(profile, n)[1]
-        for name in ("InnerDTO", "InnerXDTO"):
+        for name in ("InnerDTO", "InnerXDTO", "Inner"):
             if _mentions(ts, name) and ("field", name, "d") not in out:
                 out.append(("field", name, "d"))
     return out
@@ -847,6 +848,8 @@ def alphabet(S, D, profile, params, core):
             els.append(("allow", t))
     els.append(("allow", None))
     els.append(("coercer", ("type", INT), ("type", STR), "coercer:str"))
+    # a coercer between equal types: acts at every depth at which an int meets an int (also below containers of equal type)
+    els.append(("coercer", ("type", INT), ("type", INT), "coercer:k1"))
     if not core:
         els.append(("forbid", None))
         for y in D:
